@@ -1568,7 +1568,11 @@ Error Assembler::_emit(InstId inst_id, const Operand_& o0, const Operand_& o1, c
         uint32_t shift_type = o2.as<Imm>().predicate();
         uint64_t shift_value = o2.as<Imm>().value_as<uint64_t>();
 
-        if (shift_type > uint32_t(ShiftOp::kROR) || shift_value >= op_size)
+        // MVN is an alias of ORN (shifted register), which allows LSL, LSR, ASR, and ROR. NEG and NEGS are aliases
+        // of SUB and SUBS (shifted register), which only allow LSL, LSR, and ASR (shift type 0b11 is reserved).
+        uint32_t max_shift_type = inst_id == Inst::kIdMvn ? uint32_t(ShiftOp::kROR) : uint32_t(ShiftOp::kASR);
+
+        if (shift_type > max_shift_type || shift_value >= op_size)
           goto InvalidImmediate;
 
         opcode.add_imm(shift_type, 22);
